@@ -111,6 +111,16 @@ def impl_op(c, op):
                     raise BlockAbort()
             return tuple(out)
         return call(run_block)
+    if name == 'open':
+        # another handle is opened on the directory (all of __init__),
+        # used once and closed
+        def run_open():
+            other = type(c)(c.directory)
+            try:
+                return len(other)
+            finally:
+                other.close()
+        return call(run_open)
     if name == 'nested':
         # inner block that raises and is caught: ('nested', body)
         def run_nested():
@@ -207,6 +217,8 @@ def model_op(s, op):
             return Raises('BlockAbort')
         s.__dict__.update(trial.__dict__)
         return tuple(out)
+    if name == 'open':
+        return s.length()
     if name == 'nested':
         # only the outermost block commits or rolls back: the inner body's
         # effects stay
